@@ -152,7 +152,7 @@ def energy_task(method, N, p, cx):
             # the asserted quantity vanishes under the normal equations and the assertion holds for 0
             E.eq("assert-holds:lhs = -Im sum conj(a_j) h_j", u, -V.Cx.of(cert).im)
             E.ok("assert-holds:0 %s bound" % op, V.is_conc(w) and {"<": 0 < w, "<=": 0 <= w, ">": 0 > w, ">=": 0 >= w}.get(op, False))
-    return Task("energy.%s.%s.N%d.p%d" % (method, "complex" if cx else "real", N, p), run, kind="bounded", functions=[fq])
+    return Task("energy.%s.%s.N%d.p%d" % (method, "complex" if cx else "real", N, p), run, kind="bounded", prerun=True, functions=[fq])
 
 
 def marple_task(method, N, p, cx=False):
@@ -175,7 +175,7 @@ def marple_task(method, N, p, cx=False):
             E.eq("fast-recursion:normal-equation-%d" % j, h, 0)
         energy = sum((V.s_abs2(r_) for r_ in res), 0)
         E.eq("fast-recursion:minimum-per-sample", pf, V.s_div(V.Cx.of(energy).re if isinstance(energy, Cx) else energy, len(X)))
-    return Task("marple.%s.%s.N%d.p%d" % (method, "complex" if cx else "real", N, p), run, kind="bounded", timeout=300, functions=[fq])
+    return Task("marple.%s.%s.N%d.p%d" % (method, "complex" if cx else "real", N, p), run, kind="bounded", prerun=True, timeout=300, functions=[fq])
 
 
 def tasks(tier):
